@@ -23,6 +23,8 @@ def generate(r, tier, prop):
     inv_mix = r.choice([["CALL", "CALL", "CALL", "ALL"], ["SETATTR", "SETATTR", "CALL"], ["CALL", "SETATTR", "ALL"], ["SETATTR", "SETATTR", "SETATTR", "CALL", "ALL"]])
     inv_counts = r.choice([[0, 0, 1, 1, 2], [1, 1, 2], [0, 1]])
     p_base = r.choice([0.5, 0.75, 0.95])
+    p_second_base = r.choice([0.1, 0.2, 0.5])
+    p_alias = r.choice([0.1, 0.15, 0.4])
     steps = []
     classes = {}  # name -> {"bases": [...], "has": {member: kind}, "eff_pre": {member: bool}, "snapnames": {member: [names]}, "root_members": set}
     funcs = []
@@ -75,7 +77,7 @@ def generate(r, tier, prop):
             bases = []
             if classes and r.random() < p_base:
                 bases.append(r.choice(sorted(classes)))
-                if len(classes) > 1 and r.random() < 0.2:
+                if len(classes) > 1 and r.random() < p_second_base:
                     b2 = r.choice(sorted(classes))
                     if not related(b2, bases[0]):
                         bases.append(b2)
@@ -106,14 +108,17 @@ def generate(r, tier, prop):
                     ms["wraps"] = True  # a foreign functools.wraps decorator above the contract decorators
                 info["own"][m] = {"pre": ms["pre"], "kind": kind, "snaps": [s["name"] for s in ms.get("snaps", [])], "post": ms["post"]}
                 spec["methods"].append(ms)
-            if bases and r.random() < 0.15:
+            if bases and r.random() < p_alias:
                 # re-export of a base's function object in the subclass namespace
                 b = bases[0]
                 cands = [m for m in classes[b]["own"] if classes[b]["own"][m]["kind"] in ("method", "prop", "static") and m not in info["own"]]
                 if cands:
                     m = r.choice(cands)
                     if not classes[b]["own"][m]["snaps"]:
-                        spec["methods"].append({"name": m, "kind": "alias", "of": "%s.%s" % (b, m)})
+                        al = {"name": m, "kind": "alias", "of": "%s.%s" % (b, m)}
+                        if classes[b]["own"][m]["kind"] == "static" or r.random() < 0.5:
+                            al["via"] = "attr"  # written as ``m = Base.m`` in the class body
+                        spec["methods"].append(al)
             if bases and r.random() < 0.15:
                 # re-export of a base's method under the name of ANOTHER member that the bases also provide
                 b = bases[0]
